@@ -1,5 +1,6 @@
 import BreezyVerif.Common
 import BreezyVerif.Model.C35
+import BreezyVerif.Model.C35Y
 /-
 C35 driver.  Byte strings are hex (`-` = empty), `~` = None.
 
@@ -23,6 +24,12 @@ requests
   reexp <store> <root sha> <fuel>              → `<expRootP of the import> <expRoot of nativeOfL of the import> <gitTreeOK T|F>` | `none`
   impn <store> <root sha> <fuel>               → native form of the import: `<path>|f|<content>|<T|F>|<um>` / `<path>|l|<target>|<um>` / `<path>|d` | `none`
   items <tree>                                 → `<items of the tree> <items of canonRoot>`; item = `<path>|<f|l|d>|<data>|<T|F>`, sorted
+  yield <variant> <cache> <base ftree|~> <others: ftrees joined by `|`, `-` = none> <ftree>
+  incrf <variant> <cache> <base ftree|~> <base sha|~> <others ftrees> <ftree>  → `<recordedRoot of the code variant> <incrRoot>`
+  histf <variant> <frev>|<frev>|…               → `<roots by runHistF of the code variant> <roots by runHist>`; frev as rev with an ftree
+variant = two digits: `<fixBanned><fixRen>` (which of the two repairs about `.git` names the code under test has)
+         → `<path=sha;… of every yielded object, sorted> <T|F: objsRoot ⊆ yielded ∪ objects of the parents>`
+ftree  = `<root fid>,<n>,` then n times `<name> <fnode>`; fnode = `F,<fid>,<rev>,<content>,<T|F>` | `L,<fid>,<rev>,<target>` | `D,<fid>,<n>,…`
 dump   = `<path>|f|<content>|<mode>` / `<path>|l|<target>|<mode>` / `<path>|d` joined by `;`, sorted
 -/
 namespace BreezyVerif.C35
@@ -192,6 +199,77 @@ def showItem (i : Item) : String :=
 
 def showItems (l : List Item) : String := joinSemi (sortStrings (l.map showItem))
 
+/-- parse one file-id node from a token list -/
+def parseFNodeF : Nat → List String → Option (FNode × List String)
+  | 0, _ => none
+  | f + 1, toks =>
+    match toks with
+    | "F" :: fid :: rev :: c :: x :: rest => do
+      pure (.file ⟨← fromHex fid, ← fromHex rev⟩ (← fromHex c) (← parseBool x), rest)
+    | "L" :: fid :: rev :: t :: rest => do
+      pure (.link ⟨← fromHex fid, ← fromHex rev⟩ (← fromHex t), rest)
+    | "D" :: fid :: n :: rest => do
+      let n ← n.toNat?
+      let (cs, rest) ← parseFChildrenF f n rest
+      pure (.dir (← fromHex fid) cs, rest)
+    | _ => none
+where
+  parseFChildrenF : Nat → Nat → List String → Option (FChildren × List String)
+    | _, 0, toks => some (.nil, toks)
+    | 0, _ + 1, _ => none
+    | f + 1, n + 1, toks =>
+      match toks with
+      | name :: rest => do
+        let name ← fromHex name
+        let (nd, rest) ← parseFNodeF f rest
+        let (cs, rest) ← parseFChildrenF f n rest
+        pure (.cons name nd cs, rest)
+      | [] => none
+
+def parseFTree (s : String) : Option FTree :=
+  let toks := s.splitOn ","
+  match toks with
+  | root :: n :: rest =>
+    match fromHex root, n.toNat? with
+    | some root, some n =>
+      match parseFNodeF.parseFChildrenF (toks.length + 1) n rest with
+      | some (cs, []) => some ⟨root, cs⟩
+      | _ => none
+    | _, _ => none
+  | _ => none
+
+def parseFTrees (s : String) : Option (List FTree) :=
+  if s == "-" then some [] else (s.splitOn "|").mapM parseFTree
+
+/-- `<fixBanned 0|1><fixRen 0|1>` -/
+def parseVariant (s : String) : Option Variant :=
+  match s.toList with
+  | [a, b] =>
+    match (if a == '1' then some true else if a == '0' then some false else none),
+          (if b == '1' then some true else if b == '0' then some false else none) with
+    | some x, some y => some ⟨x, y⟩
+    | _, _ => none
+  | _ => none
+
+def parseFRev (s : String) : Option FRev :=
+  match s.splitOn "!" with
+  | [ps, ev, t] => do pure ⟨← parseNats ps, ← parseKeys ev, ← parseFTree t⟩
+  | _ => none
+
+def showYield (ys : List (Path × Sha)) : String :=
+  joinSemi (sortStrings (ys.map fun (p, s) => s!"{showPath p}={toHex s}"))
+
+/-- every object of the revision's tree is yielded or is an object of a parent's tree -/
+def yieldComplete (fb : Variant) (cache : Cache) (base : Option FTree) (others : List FTree) (t : FTree) : Bool :=
+  let have_ := (yielded fb gitId cache base others t).map (·.2) ++
+    (match base with | some b => (objsRoot gitId (eraseC b.cs)).map (·.1) | none => []) ++
+    others.flatMap fun o => (objsRoot gitId (eraseC o.cs)).map (·.1)
+  match yieldedRoot fb gitId cache base others t, base with
+  | none, some b =>
+    -- nothing yielded: the revision re-uses its parent's root tree, which must then be its own
+    expRoot gitId (eraseC b.cs) == expRoot gitId (eraseC t.cs)
+  | _, _ => (objsRoot gitId (eraseC t.cs)).all fun o => have_.contains o.1
+
 def handle : List String → String
   | ["exp", t] =>
     match parseTree t with
@@ -255,6 +333,37 @@ def handle : List String → String
     match parseTree t with
     | some t => s!"{showItems (itemsNC [] t)} {showItems (itemsPL [] (canonRoot gitId t))}"
     | none => "bad-op"
+  | ["yield", v, cache, base, others, t] =>
+    match parseVariant v, parseCache cache, parseFTrees others, parseFTree t with
+    | some fb, some cache, some others, some t =>
+      if base == "~" then
+        s!"{showYield (yielded fb gitId cache none others t)} {showBool (yieldComplete fb cache none others t)}"
+      else
+        match parseFTree base with
+        | some b =>
+          s!"{showYield (yielded fb gitId cache (some b) others t)} {showBool (yieldComplete fb cache (some b) others t)}"
+        | none => "bad-op"
+    | _, _, _, _ => "bad-op"
+  | ["incrf", v, cache, base, bsha, others, t] =>
+    -- the recorded root id: the file-id model of the code variant, and the path based `incrRoot` (what the
+    -- theorems are about); they agree unless the revision is in one of the `.git` finding families
+    match parseVariant v, parseCache cache, parseFTrees others, parseFTree t with
+    | some v, some cache, some others, some t =>
+      let eo := others.map fun o => eraseC o.cs
+      if base == "~" && bsha == "~" then
+        s!"{toHex (recordedRoot v gitId cache none others t)} {toHex (incrRoot gitId cache none eo (eraseC t.cs))}"
+      else
+        match parseFTree base, fromHex bsha with
+        | some b, some bs =>
+          s!"{toHex (recordedRoot v gitId cache (some (b, bs)) others t)} {toHex (incrRoot gitId cache (some (eraseC b.cs, bs)) eo (eraseC t.cs))}"
+        | _, _ => "bad-op"
+    | _, _, _, _ => "bad-op"
+  | ["histf", v, h] =>
+    match parseVariant v, (h.splitOn "|").mapM parseFRev with
+    | some v, some revs =>
+      let plain := (runHist gitId HState.empty (revs.map fun r => ⟨r.parents, r.evict, eraseC r.tree.cs⟩)).roots
+      s!"{joinSemi ((runHistF v gitId revs).roots.map toHex)} {joinSemi (plain.map toHex)}"
+    | _, _ => "bad-op"
   | ["mode", m] =>
     match m.toNat? with
     | some m =>
